@@ -477,6 +477,33 @@ def records_case(ctx, case):
             if i % 2))
         if rp != want_p:
             ctx.fail('records', 'R-repr-partial', case, rp, want_p)
+        # two partially populated records: comparing them may be refused
+        # (an unset field has no value), but a comparison that ANSWERS
+        # 'equal' must be right - same class, the same fields set, equal
+        # values - and then the hashes agree
+        ua = set(case.get('unset_a') or ())
+        ub = set(case.get('unset_b') or ())
+        if ua or ub:
+            pa = make_record(ca, [_UNSET if i in ua else v
+                                  for i, v in enumerate(va)])
+            pb = make_record(cb_, [_UNSET if i in ub else v
+                                   for i, v in enumerate(vb)])
+            try:
+                peq = (pa == pb)
+            except AttributeError:
+                peq = None
+                ctx.label('records_partial_comparison_refused')
+            if peq is not None:
+                ctx.label('records_partial_comparison_answered')
+                set_a = [i for i in range(len(sa)) if i not in ua]
+                set_b = [i for i in range(len(sb)) if i not in ub]
+                really = ca is cb_ and set_a == set_b and \
+                    [va[i] for i in set_a] == [vb[i] for i in set_b]
+                if peq and not really:
+                    ctx.fail('records', 'R-eq-partial', case, True, False)
+                elif peq and h(pa) != h(pb) and \
+                        'unhashable' not in (h(pa), h(pb)):
+                    ctx.fail('records', 'R-hash', case, (h(pa), h(pb)))
     except Exception as e:
         ctx.fail('records', 'R-raises', case, exc=e)
         return
@@ -915,6 +942,8 @@ def t_laws(ctx, n):
         'cls_b': st.one_of(st.none(), st.integers(0, 60)),
         'a': st.lists(val, min_size=8, max_size=8),
         'b': st.lists(val, min_size=8, max_size=8),
+        'unset_a': st.lists(st.integers(0, 5), max_size=3),
+        'unset_b': st.lists(st.integers(0, 5), max_size=3),
         'twin': st.sampled_from([0, 0, 1, 2])}).map(
             lambda c: dict(c, b=c['a']) if c['twin'] == 1 or
             c['a'][0] in (1, 'a') else
@@ -969,6 +998,12 @@ def t_laws(ctx, n):
         records_case(ctx, {'cls_a': i, 'cls_b': i + 1,
                            'a': [1, 'x', (2, 3), None, 0, 5, 6, 7],
                            'b': [1, 'x', (2, 3), None, 0, 5, 6, 7]})
+        for ua, ub in (([3, 4], []), ([], [0, 1]), ([0, 1, 2], [2, 3, 4]),
+                       ([2], [2]), ([0, 1, 2, 3, 4, 5, 6, 7], [1])):
+            records_case(ctx, {'cls_a': i, 'cls_b': None,
+                               'a': [1, 2, 1, 2, 3, 5, 6, 7],
+                               'b': [1, 2, 1, 2, 3, 5, 6, 7],
+                               'unset_a': ua, 'unset_b': ub})
 
 
 def t_flags(ctx, n):
